@@ -264,6 +264,11 @@ def _ops(M):
         'set composite ok + unique conflict': lambda: P[1].set(b=7, c=7, u=20),
         'set relation + unique conflict': lambda: P[3].set(group=G[2], u=10),
         'set all free': lambda: P[1].set(u=98, a=8, b=8, c=8, group=G[2]),
+        # every scalar argument repeats the current value (Entity.set drops them), the collection argument really changes: the undo must still know the object was not queued before
+        'set with unchanged scalars and a collection change': lambda: P[1].set(name=P[1].name, a=P[1].a, u=P[1].u, courses=[C[3]]),
+        'set with unchanged scalars, an unchanged relation and two collection changes': lambda: P[2].set(name=P[2].name, group=P[2].group, courses=[C[1], C[3]], tags=[]),
+        'set with unchanged scalars only': lambda: P[1].set(name=P[1].name, a=P[1].a),
+        'set with one changed scalar among unchanged ones and a collection change': lambda: P[1].set(name=P[1].name, a=77, courses=[C[2], C[3]]),
         'create with required 1-1 violation': lambda: PP(id=9, person=P[1]),
         'create with unique conflict': lambda: P(id=9, name='x', u=10),
         'create with composite conflict': lambda: P(id=9, name='x', b=1, c=1, group=G[2]),
